@@ -65,12 +65,14 @@ def udpid_hex(device_id: int, endian: str) -> str:
 
 def model_outcome(plan):
     """Reference retry contract: (expected attempts per endpoint, index of failing endpoint or None)."""
+    import msmart.cloud as _mc
+    R = _mc.BaseCloud.RETRIES          # the configured budget, whatever it is
     attempts, failed = [], None
     for i, ep in enumerate(EPS):
-        seq = plan[ep]
+        seq = (list(plan[ep]) + ["ok"] * R)[:max(R, 1)]
         n = 0
         res = None
-        for a in seq[:3]:
+        for a in seq[:R]:
             n += 1
             if a != "timeout":
                 res = a
@@ -229,7 +231,9 @@ def run_discover2(st: Stats, pidx: int):
                 out = w.run(Discover.discover(region=region, account=acc[1], password=acc[2], auto_connect=True,
                                               get_async_client=srv.client_factory()))
                 prob = None
-                clean = all(a in ("ok", "timeout") for a in PATTERNS[pidx]) and PATTERNS[pidx].count("timeout") < 3
+                import msmart.cloud as _mc
+                first_final = next((a for a in (list(PATTERNS[pidx]) + ["ok"] * _mc.BaseCloud.RETRIES)[:_mc.BaseCloud.RETRIES] if a != "timeout"), "timeout")
+                clean = first_final == "ok"
                 if check_server(st, case, srv, "discover2"):
                     prob = "rejected"
                 elif out[0] != "ok":
@@ -239,7 +243,7 @@ def run_discover2(st: Stats, pidx: int):
                         prob = f"discover raised CloudError although the fault pattern recovers within the retry budget: {str(out[1])[:60]}"
                 elif not clean:
                     prob = "a cloud failure (HTTP error / API error / exhausted timeouts) did not surface as a CloudError"
-                elif max(srv.counts.values()) > 3 * len(ids) + 3:
+                elif max(srv.counts.values()) > _mc.BaseCloud.RETRIES * (len(ids) + 1):
                     prob = f"more attempts than the retry budget allows: {srv.counts}"
                 else:
                     got = sorted((d.id, d.token, d.key) for d in out[1])
